@@ -946,3 +946,59 @@ func GenWide(t *rapid.T, cfg GenCfg) *Spec {
 	}
 	return sp
 }
+
+// GenJoinMix builds a join that its predecessors reach in different ways in ONE step: 2-5 producers fed by
+// START (they run concurrently), each connected to the join node j either by a plain edge or through a branch
+// (forced to select j, its alternative, or both); alternatives and j feed END by key.  Mode dag (mostly) or
+// pregel.  Used where the order in which the producers of one step finish matters (C02, C03).
+func GenJoinMix(t *rapid.T, cfg GenCfg) *Spec {
+	mode := []string{"dag", "dag", "dag", "pregel"}[rapid.IntRange(0, 3).Draw(t, "joinMode")]
+	sp := &Spec{Mode: mode, In: "S", Out: "M"}
+	k := rapid.IntRange(2, 5).Draw(t, "producers")
+	sp.Nodes = append(sp.Nodes, NodeSpec{Key: "j", Kind: "lambda", In: "M", OutputKey: "j", Digest: true})
+	sp.Edges = append(sp.Edges, Edge{From: "j", To: End})
+	edges, branches := 0, 0
+	for i := 0; i < k; i++ {
+		p := NodeSpec{Key: fmt.Sprintf("p%d", i), Kind: "lambda", In: "S"}
+		p.OutputKey = p.Key
+		sp.Nodes = append(sp.Nodes, p)
+		sp.Edges = append(sp.Edges, Edge{From: Start, To: p.Key})
+		how := rapid.IntRange(0, 2).Draw(t, "how")
+		if i == k-1 && edges == 0 {
+			how = 0
+		}
+		if i == k-2 && branches == 0 {
+			how = 1
+		}
+		if how == 0 {
+			sp.Edges = append(sp.Edges, Edge{From: p.Key, To: "j"})
+			edges++
+			continue
+		}
+		branches++
+		alt := NodeSpec{Key: fmt.Sprintf("q%d", i), Kind: "lambda", In: "M", Digest: true}
+		alt.OutputKey = alt.Key
+		sp.Nodes = append(sp.Nodes, alt)
+		sp.Edges = append(sp.Edges, Edge{From: alt.Key, To: End})
+		b := Branch{From: p.Key, Targets: []string{"j", alt.Key}}
+		switch rapid.IntRange(0, 5).Draw(t, "select") {
+		case 0:
+			b.Force = []string{alt.Key}
+		case 1:
+			b.Multi = true
+			b.Force = []string{"j", alt.Key}
+		default:
+			b.Force = []string{"j"}
+		}
+		if len(b.Force) > 1 {
+			b.Multi = true
+		}
+		sp.Branches = append(sp.Branches, b)
+		if how == 2 {
+			// a second branch of the same producer over the same targets
+			b2 := Branch{From: p.Key, Targets: []string{"j", alt.Key}, Force: []string{[]string{"j", alt.Key}[rapid.IntRange(0, 1).Draw(t, "select2")]}}
+			sp.Branches = append(sp.Branches, b2)
+		}
+	}
+	return sp
+}
